@@ -23,7 +23,7 @@ type VerifC10State struct {
 	ReaderID    string // identity of the open reader object
 	// walker wedge (see uio.VerifC10ReaderWedge)
 	WedgeLevel, WalkerDepth, BufLeft int
-	Root        string
+	Root                             string
 }
 
 func VerifC10Snapshot(dm *DagModifier) VerifC10State {
